@@ -13,6 +13,9 @@ spelling, the analysed module is first rewritten, in memory, by transformations 
                                chain and the parameter is never rebound; helper locals that clash with a name the caller reads are
                                suffixed.  A helper that cannot be inlined (generators, *args, recursion, returns nested in
                                try/with/inner loops) is left alone - the rules then see a call, as they would have.
+  N4  new pure temporaries     a local the pinned function does not have, bound once to a call-free expression and read only afterwards in
+                               the same block, with nothing it reads rebound or changed in place in between, is replaced by the
+                               expression (copy propagation): `grid = self.__hdr; x = grid['nx']` is `x = self.__hdr['nx']`
   N3  renamed locals           locals of a function are renamed toward the names the pinned function uses for them.  The pairing is
                                found by aligning the statements of both versions (difflib over statement shapes with locals
                                abstracted) and voting; it is *applied* only if it is injective and the new name occurs nowhere in the
@@ -1073,6 +1076,117 @@ def rename_toward(fn, pinfn):
     return mapping
 
 
+# ------------------------------------------------------------------------------------------------------- N4: new pure temporaries
+PURE_NODES = (ast.Name, ast.Constant, ast.Attribute, ast.Subscript, ast.Tuple, ast.BinOp, ast.UnaryOp, ast.Compare, ast.BoolOp, ast.Slice,
+              ast.operator, ast.unaryop, ast.cmpop, ast.boolop, ast.expr_context, ast.Starred)
+MUTATORS = ('append', 'extend', 'insert', 'pop', 'remove', 'clear', 'update', 'setdefault', 'popitem', 'sort', 'reverse', 'add', 'discard',
+            'fill', 'resize', 'put', 'itemset', 'setflags', 'byteswap')
+
+
+def propagate_new_temporaries(fn, pinfn):
+    """a local that the pinned function does not have, bound exactly once by `name = <call-free expression>` and read only in later
+    statements of the same block (or nested in them), with nothing the expression reads being rebound or changed in place in
+    between, is replaced by that expression (copy propagation); -> number of names removed"""
+    if uses_textual_names(fn):
+        return 0
+    pin_ids = all_ids(pinfn) if pinfn is not None else set()
+    params = set(params_of(fn))
+    done = 0
+    for _ in range(8):
+        parent, block_of = {}, {}
+        for n in ast.walk(fn):
+            for c in ast.iter_child_nodes(n):
+                parent[id(c)] = n
+        stores = {}
+        for n in ast.walk(fn):
+            if isinstance(n, ast.Name) and isinstance(n.ctx, (ast.Store, ast.Del)):
+                stores.setdefault(n.id, []).append(n)
+            elif isinstance(n, ast.arg):
+                stores.setdefault(n.arg, []).append(n)
+            elif isinstance(n, (ast.Global, ast.Nonlocal)):
+                for k in n.names:
+                    stores.setdefault(k, []).extend([n, n])
+        cand = None
+        for st in [x for x in ast.walk(fn) if isinstance(x, ast.Assign)]:
+            if len(st.targets) != 1 or not isinstance(st.targets[0], ast.Name):
+                continue
+            name = st.targets[0].id
+            if name in pin_ids or name in params or len(stores.get(name, [])) != 1:
+                continue
+            if not all(isinstance(x, PURE_NODES) for x in ast.walk(st.value)):
+                continue
+            blk_owner = parent.get(id(st))
+            blk = None
+            for fld in ('body', 'orelse', 'finalbody'):
+                b = getattr(blk_owner, fld, None)
+                if isinstance(b, list) and st in b:
+                    blk = b
+            if blk is None:
+                continue
+            after = blk[blk.index(st) + 1:]
+            after_ids = set(id(x) for s2 in after for x in ast.walk(s2))
+            uses = [x for x in ast.walk(fn) if isinstance(x, ast.Name) and x.id == name and isinstance(x.ctx, ast.Load)]
+            if not uses or not all(id(u) in after_ids for u in uses):
+                continue
+            # a use inside a nested scope is evaluated later than it is written: leave those alone
+            def in_scope(u):
+                p_ = parent.get(id(u))
+                while p_ is not None and p_ is not fn:
+                    if isinstance(p_, SCOPES):
+                        return True
+                    p_ = parent.get(id(p_))
+                return False
+            if any(in_scope(u) for u in uses):
+                continue
+            # the region between the definition and the last use
+            last = max(getattr(u, 'lineno', 0) for u in uses)
+            region = []
+            for s2 in after:
+                if getattr(s2, 'lineno', 0) <= last:
+                    region.append(s2)
+            read = set(x.id for x in ast.walk(st.value) if isinstance(x, ast.Name))
+            chains = set(ast.unparse(x) for x in ast.walk(st.value) if isinstance(x, (ast.Attribute, ast.Subscript)))
+            clash = False
+            alias_only = _is_trivial_arg(st.value)          # names an object; what happens *to* the object does not matter
+            for s2 in region:
+                for x in ast.walk(s2):
+                    if isinstance(x, ast.Name) and isinstance(x.ctx, (ast.Store, ast.Del)) and x.id in read:
+                        clash = True
+                    if isinstance(x, ast.Attribute) and isinstance(x.ctx, (ast.Store, ast.Del)):
+                        t = ast.unparse(x)
+                        if any(c == t or c.startswith(t + '.') or c.startswith(t + '[') for c in chains):
+                            clash = True            # the attribute (or an object on the way to it) is rebound
+                    if not alias_only:
+                        if isinstance(x, ast.Subscript) and isinstance(x.ctx, (ast.Store, ast.Del)):
+                            t = ast.unparse(x.value)
+                            if any(c == t or c.startswith(t) or t.startswith(c) for c in chains) or (isinstance(x.value, ast.Name) and x.value.id in read):
+                                clash = True
+                        if isinstance(x, ast.Call) and isinstance(x.func, ast.Attribute) and x.func.attr in MUTATORS and isinstance(x.func.value, ast.Name) and x.func.value.id in read:
+                            clash = True
+                        if isinstance(x, ast.Call) and chains:
+                            clash = True            # a call may change what an attribute or item read at definition time holds
+                    if isinstance(x, ast.AugAssign) and isinstance(x.target, ast.Name) and x.target.id in read:
+                        clash = True
+            # a region inside a loop that re-enters: the definition is re-executed too (same block), fine
+            if clash:
+                continue
+            cand = (st, name, blk)
+            break
+        if cand is None:
+            break
+        st, name, blk = cand
+        sub = _Subst({name: st.value})
+        for i, s2 in enumerate(blk):
+            if s2 is st:
+                continue
+            blk[i] = sub.visit(s2)
+        blk.remove(st)
+        if not blk:
+            blk.append(ast.Pass())
+        done += 1
+    return done
+
+
 # ----------------------------------------------------------------------------------------------------------------------- driver
 def normalize(relpath, text, tree):
     """rewrite `tree` (parsed from `text`) in place; -> statistics dict (empty when nothing was done)"""
@@ -1095,7 +1209,7 @@ def normalize(relpath, text, tree):
         stats['not_inlined'] = sorted(set('%s (%s)' % f for f in inl.failed))
     pfun = index_functions(pin)
     cfun = index_functions(tree)
-    nl = nr = 0
+    nl = nr = nt = 0
     for q, (fn, body, cls) in cfun.items():
         p = pfun.get(q)
         if p is None:
@@ -1103,10 +1217,13 @@ def normalize(relpath, text, tree):
         if ast.dump(fn) == ast.dump(p[0]):
             continue
         nl += inline_local_lambdas(fn, p[0])
+        nt += propagate_new_temporaries(fn, p[0])
         m = rename_toward(fn, p[0])
         nr += len(m)
     if nl:
         stats['local_helpers'] = nl
+    if nt:
+        stats['temporaries'] = nt
     if nr:
         stats['renamed'] = nr
     if stats:
